@@ -53,6 +53,8 @@ func newEnv() *env.Env {
 	e.Define("vi8", int8(-3))
 	e.Define("vs", "ab")
 	e.Define("ve", "")
+	e.Define("vsu", "\u00e9\u20ac")     // 2 characters, 5 bytes: an index can be inside the bytes and beyond the characters
+	e.Define("vsb", "a\xff\xfe")        // not valid UTF-8
 	e.Define("vb", true)
 	e.Define("vn", nil)
 	e.Define("vl", []interface{}{int64(1), int64(2), int64(3)})
@@ -66,7 +68,7 @@ func newEnv() *env.Env {
 	e.Define("id", func(x interface{}) interface{} { return x })
 	e.Define("ga3", func(a [3]int64) int64 { return a[0] + a[2] })
 	e.Define("gpf", func(p *float64) bool { return p == nil })
-	_, err := vm.Execute(e, nil, "vfn = func(a) { return a + 1 }\nvfv = func(a...) { return len(a) }\nmodule vmo { x = 1 }\nvp = new(int64)\nvnp = [new(int64)]\nvst = make(struct { A int64, B string })\nvtl = make([]int64, 2)\nvtm = make(map[string]int64)\nvcc = make(chan interface)\nvsi = make(struct { A interface })\nvsi.A = [1]\nvsf = make(struct { F interface })\nvsf.F = vfn\nvtmi = make(map[int64]string)\nvtmi[1] = \"a\"\nvtmf = make(map[float64]bool)\nvtls = make([]string, 1)\nvsm = make(struct { M map[string]int64, L []int64, P *int64 })\nvnilm = vsm.M\nvnill = vsm.L\nvps = &vst\nvnilp = vsm.P\nvtlp = make([]*int64, 1)\nvnl = [nil]\nvtfp = make([]*float64, 1)\nvcp = make(chan *int64, 2)\nvcp <- nil\nmake(type VF, vfn)\nvmf = make(VF)\nvnf = make([]VF, 1)[0]\nmake(type VFV, vfv)\nvmfv = make(VFV)")
+	_, err := vm.Execute(e, nil, "vfn = func(a) { return a + 1 }\nvfv = func(a...) { return len(a) }\nmodule vmo { x = 1 }\nvp = new(int64)\nvnp = [new(int64)]\nvst = make(struct { A int64, B string })\nvtl = make([]int64, 2)\nvtm = make(map[string]int64)\nvcc = make(chan interface)\nvsi = make(struct { A interface })\nvsi.A = [1]\nvsf = make(struct { F interface })\nvsf.F = vfn\nvtmi = make(map[int64]string)\nvtmi[1] = \"a\"\nvtmf = make(map[float64]bool)\nvtls = make([]string, 1)\nvsm = make(struct { M map[string]int64, L []int64, P *int64 })\nvnilm = vsm.M\nvnill = vsm.L\nvps = &vst\nvnilp = vsm.P\nvtlp = make([]*int64, 1)\nvnl = [nil]\nvtfp = make([]*float64, 1)\nvcp = make(chan *int64, 2)\nvcp <- nil\nmake(type VF, vfn)\nvmf = make(VF)\nvnf = make([]VF, 1)[0]\nmake(type VFV, vfv)\nvmfv = make(VFV)\nmake(type VMO, vmo)\nvnmod = make([]VMO, 1)[0]\nverr0 = nil\ntry {\n throw \"x\"\n} catch e {\n verr0 = e\n}\nmake(type VER, verr0)\nvnerr = make([]VER, 1)[0]")
 	if err != nil {
 		panic(err)
 	}
